@@ -694,6 +694,10 @@ func main() {
 	bundleGroups := []groupT{
 		g(false, []string{fio, ht, afoo}, tp("", "io", "Reader"), iq("io", "Reader"), fr("io", "Reader", "ReadFake"), tp("*", "template", "Template"), sk("", "foo", "T")),
 		g(false, nil, tp("", "io", "Reader"), iq("io", "Reader"), fr("io", "Reader", "Read"), tp("*", "template", "Template"), sk("*", "rand", "Rand")),
+		// a bundle group that binds template, io and foo twice each (the last Import() wins; nothing of it may outlive the group)
+		g(false, []string{ht, "example.com/c20/lib/io", "text/template", bfoo, fio, afoo, "example.com/c20/lib/template"},
+			tp("*", "template", "Template"), iq("io", "Reader"), fr("io", "Reader", "ReadFake"), sk("", "foo", "T")),
+		g(false, nil, tp("*", "template", "Template"), iq("io", "Reader"), fr("io", "Reader", "Read")),
 		g(true, []string{bfoo, "text/scanner"}, tp("", "foo", "T")),
 		g(false, []string{bfoo}, tp("", "foo", "T"), iq("foo", "Iface"), tp("", "scanner", "Scanner")),
 		g(false, nil, sk("", "io", "Writer"), ut("[]", "template", "Template"), tp("", "scanner", "Scanner")),
